@@ -268,6 +268,10 @@ package bigbuff
 //@   # a running worker accounts for one unit of count: count is incremented once before each `go w.worker()`
 //@   # (Call/loop0 spawn invariant) and decremented only by a worker on its way out (this function).
 //@   rely counted : w.count >= 1
+//@   # retiring is one atomic step: the critical section in which the worker decides to leave (nothing queued, or more
+//@   # workers than wanted) is the one that takes it out of the count, so Call never counts a worker that will not look again
+//@   action mutex
+//@   ensures retired : w.count == old(w.count) - 1 && unchanged(w.queue)
 
 //@ func (*Workers).worker$1
 //@   maypanic
